@@ -121,8 +121,12 @@ if __name__ == "__main__":
         confirm(sys.argv[2], sys.argv[3], sys.argv[4:])
     elif sys.argv[1] == "recheck":
         name = sys.argv[2]
-        checks = sys.argv[3:] or [name.split("-")[0]]
+        thorough = "--thorough" in sys.argv
+        checks = [a for a in sys.argv[3:] if a != "--thorough"] or [name.split("-")[0]]
         mp = os.path.join("/verif/seeded", name, "meta.json")
         meta = json.load(open(mp))
-        meta.setdefault("checks", {}).update(run_checks(name, checks))
+        if thorough:
+            meta.setdefault("checks_thorough", {}).update(run_checks(name, checks, "thorough"))
+        else:
+            meta.setdefault("checks", {}).update(run_checks(name, checks))
         json.dump(meta, open(mp, "w"), indent=1)
